@@ -1,0 +1,64 @@
+//go:build verif
+
+// Contracts for govc (see /verif/DESIGN.md). Comment-only file: no executable code.
+
+package txlocator
+
+// ---------------------------------------------------------------------------
+// C11: no transaction id is accepted twice along a chain of blocks
+// ---------------------------------------------------------------------------
+
+//@ property C11
+// id_ts(s): the timestamp of the transaction whose id is s (an id is a hash of the transaction
+// content, which includes the timestamp).
+//@ smt all (declare-fun id_ts (Str) W64)
+// tr_chain(t, s): id s is recorded in tracker t, in one of its ancestors, or is committed.
+// mgr_has(m, s): id s is committed (locator cache or locator database) in manager m.
+//@ smt all (declare-fun tr_chain (Int Str) Bool)
+//@ smt all (declare-fun mgr_has (Int Str) Bool)
+//@ smt all (declare-fun db_has (Int Str) Bool)
+
+//@ spec trOwn(t, s) = t.locators != nil && has(t.locators, s)
+//@ spec parentChain(t, s) = (t.parent != nil) ? tr_chain(ref(t.parent), s) : mgr_has(ref(t.manager), s)
+// The lookup consults a tracker's own ids only for timestamps strictly below ts+th (see the
+// [boundary] obligation of tracker.Has for the inclusive bound, which is a recorded finding).
+//@ spec chainDef(t) = forall s str :: tr_chain(ref(t), s) == ((trOwn(t, s) && int64(id_ts(s)) < t.list.ts + t.list.th) || parentChain(t, s))
+// every id a tracker records lies in the validity window of its block (checked before Add)
+//@ spec trWin(t) = t.list != nil && listSane(t.list) && (forall s str :: trOwn(t, s) ==> int64(id_ts(s)) <= t.list.ts + t.list.th)
+//@ spec trOK() = forall x ptr_tracker :: x != nil ==> chainDef(x) && trWin(x) && mgrOK(x.manager) && 0 <= x.list.group && x.list.group < 2 && (x.parent != nil ==> x.parent.list.group == x.list.group)
+//@ spec listSane(l) = -0x4000000000000000 < l.ts && l.ts < 0x4000000000000000 && 0 <= l.th && l.th < 0x4000000000000000
+
+// id_group(s): the transaction group (normal / patch) of the transaction with id s.
+//@ smt all (declare-fun id_group (Str) Int)
+//@ spec cached(m, s) = has(m.locators, s)
+//@ spec mgrDef(m) = forall s str :: mgr_has(ref(m), s) == (cached(m, s) || bk_has(m.lbk, s))
+// maxTSInDB != 0 bounds the timestamps of the ids of that group that are only in the database
+//@ spec mgrInv(m) = forall s str, g int :: 0 <= g && g < 2 && id_group(s) == g && m.cache[g].maxTSInDB != 0 && !cached(m, s) && bk_has(m.lbk, s) ==> int64(id_ts(s)) <= m.cache[g].maxTSInDB
+//@ spec mgrOK(m) = m != nil && m.locators != nil && m.lbk != nil && mgrDef(m) && mgrInv(m)
+
+//@ func (m *manager) hasLocatorInCache(group, id, ts) (has, ok)
+//@   pure
+//@   requires mgrOK(m) && 0 <= group && group < 2 && ts == int64(id_ts(str(id))) && id_group(str(id)) == group
+//@   ensures [decided] ok ==> has == mgr_has(ref(m), str(id))
+//@   ensures [undecided] !ok ==> !cached(m, str(id))
+
+//@ func (m *manager) hasLocatorInDB(id) (has, err)
+//@   pure
+//@   requires m != nil && m.lbk != nil
+//@   ensures err == nil ==> has == bk_has(m.lbk, str(id))
+
+//@ func (m *manager) Has(group, id, ts) (has, err)
+//@   pure
+//@   requires mgrOK(m) && 0 <= group && group < 2 && ts == int64(id_ts(str(id))) && id_group(str(id)) == group
+//@   ensures [committed] err == nil ==> has == mgr_has(ref(m), str(id))
+
+//@ func (t *tracker) parentHasInLock(id, ts) (has, err)
+//@   pure
+//@   requires t != nil && trOK() && ts == int64(id_ts(str(id))) && id_group(str(id)) == t.list.group
+//@   ensures [chain] err == nil ==> has == parentChain(t, str(id))
+
+//@ func (t *tracker) Has(id, ts) (has, err)
+//@   pure
+//@   requires t != nil && trOK() && ts == int64(id_ts(str(id))) && id_group(str(id)) == t.list.group
+//@   ensures [chain] err == nil ==> has == tr_chain(ref(t), str(id))
+//@   ensures [boundary] err == nil && trOwn(t, str(id)) ==> has
